@@ -27,8 +27,8 @@ CLAIMED["C04"] = ("Theorems: add uses the largest at-ratio deposit that fits, mi
 CLAIMED["C05"] = ("Inductive invariants for every reachable state of three models: dex/farm (Model/Farm.v), farm-with-locked-rewards (Model/FarmLocked.v, refines the farm model; rewards leave only as locked tokens) and farm-staking at position level (Model/StakingPos.v): "
     "reserve = generated - paid, reward balance = reserve + donations (minting farm), farming tokens held = farm-token supply = sum of outstanding positions, DSC*(reserve - boosted pools) >= un-floored claimable base rewards of all positions "
     "(solvency, uses the ceil-merge lemma) and its floor form, principal backed, no legitimate operation fails on a negative counter (C05_staking_d_no_spurious_failure). "
-    "In the CLOSED model of dex/farm (Props/C05_closed.v: Farm x Boosted, the boosted payout is computed, not an input) the farm's boosted pool equals the sum of the weekly pools + undistributed, the reserve covers claims plus those actual pools, and the computed payout is always payable. "
-    "Tied to the three real contracts by differential replay; the repaired defects F1/F4 stay as regression histories.", "22 C05", "Coq inductive invariants (accounting, ledger, solvency, refinement between models) + correspondence")
+    "In the CLOSED model of dex/farm (Props/C05_closed.v: Farm x Boosted, the boosted payout is computed, not an input) the farm's boosted pool equals the sum of the weekly pools + undistributed, the reserve covers claims plus those actual pools, and the computed payout is always payable. Props/C05_total.v: on every reachable state of the farm model and of the closed model an operation fails IF AND ONLY IF a documented guard fails (no counter, debit, division or lookup can abort a legitimate call). "
+    "Tied to the three real contracts by differential replay; the repaired defects F1/F4 stay as regression histories.", "34 C05", "Coq inductive invariants (accounting, ledger, solvency, refinement between models) + correspondence")
 CLAIMED["C06"] = ("Theorems: settlement grows the index by exactly floor((rate*blocks - boosted cut)*DSC/supply) and never otherwise; index monotone; claim pays floor(amount*(RPS_now-RPS_entry)/DSC) + boosted; "
     "a new position records the index settled to its own block (not retroactive); base paid <= base generated over every history; admin changes settle with the old parameters first.", "7 C06",
     "Coq characterisation theorems + reachability invariant + correspondence")
@@ -69,10 +69,10 @@ CLAIMED["C15"] = ("19 theorems on the farm-staking-proxy model (callee answers a
     "for every history the proxy holds exactly the LP-farm and staking-farm tokens its outstanding dual-yield tokens record, all fungible balances 0; partial redemption = floor of the proportional share, sum of parts never exceeds the whole; "
     "unstake output order and unbond amount; registered staking value is the staking side of the safe-price (TWAP) answer and the only price query. Tied to the real pair + farm-with-locked-rewards + farm-staking + proxy by differential replay.",
     "19 C15", "Coq inductive invariant + characterisation theorems relative to stated callee laws + correspondence")
-CLAIMED["C19"] = ("24 theorems: the access table (587 rows = every exported endpoint of the 16 contracts in Gen/Endpoints.v, regenerated from the source each run, plus on-behalf variants; 11,926 cells) proved exhaustively by vm_compute + forallb_forall: allowed => caller holds the demanded role / is a configured counterparty / authorised agent; "
+CLAIMED["C19"] = ("32 theorems: the access table (648 rows = every exported endpoint of the 16 contracts in Gen/Endpoints.v, regenerated from the source each run, plus on-behalf variants incl. mixed-owner multi-payment calls; 13,230 cells) proved exhaustively by vm_compute + forallb_forall: allowed => caller holds the demanded role / is a configured counterparty / authorised agent; "
     "fund-moving rows disallowed when inactive or paused (pair bootstrap exception), partial-active = liquidity only; inventory covered, #[only_owner] attributes agree; for all inputs: require_any_of rule, no escalation and powerless callers over every permissions/hub history, on-behalf rule = hub view, revocation/blacklist stick, rewards to the original owner; "
     "on Model.Pair / Model.Farm for all states and arguments: inactive => no user-funds operation. Tied by executing the complete endpoint x role x state matrix on the real contracts (state restored between cells) and comparing every verdict; failing calls must not change state.",
-    "24 C19", "Coq finite decision table proved exhaustively + for-all-input guard/state-machine theorems + full matrix correspondence")
+    "32 C19", "Coq finite decision table proved exhaustively + for-all-input guard/state-machine theorems + full matrix correspondence")
 CLAIMED["C16"] = ("52 theorems on the proxy_dex model (pair, farms and energy factory are environment answers; the interface laws are boolean predicates evaluated where each answer is consumed, checked on every real answer, and each proved on the callee model - Model/Pair, Model/FarmLocked, Model/Energy/Penalty - with closed compositions C16_closed_*): "
     "Backed invariant for every lawful history and all positions at once (LP held >= user-held wrapped LP; farm tokens per nonce >= outstanding wrapped-farm supply; locked tokens per nonce >= sum of floor shares + wrapped-farm supply); "
     "remove returns locked tokens of the recorded nonce = min(received, part), base asset only as pool surplus, burns base + locked = part; exit with/without penalty for both farming-token kinds; base asset never paid except that surplus; merge; "
